@@ -43,6 +43,8 @@ type Solver struct {
 	cache     map[string]Result
 	log       io.Writer
 	defsSent  int
+	stack     []*Term // asserted path-condition literals, one push level each
+	levelDefs [][]int // term ids defined/declared at each level (0 = base)
 }
 
 func NewSolver(ctx *TermCtx, bin []string, timeoutMs int) (*Solver, error) {
@@ -71,6 +73,8 @@ func (s *Solver) start() error {
 	s.out = bufio.NewReaderSize(out, 1<<16)
 	s.sent = map[int]bool{}
 	s.declared = map[int]bool{}
+	s.stack = nil
+	s.levelDefs = [][]int{nil}
 	s.send("(set-option :print-success false)")
 	if strings.Contains(s.bin[0], "z3") {
 		s.send(fmt.Sprintf("(set-option :timeout %d)", s.timeoutMs))
@@ -139,25 +143,55 @@ func (s *Solver) define(t *Term) {
 		n := f.t
 		stack = stack[:len(stack)-1]
 		s.sent[n.id] = true
+		lv := len(s.levelDefs) - 1
 		switch n.op {
 		case "const":
 		case "var":
 			if !s.declared[n.id] {
 				s.declared[n.id] = true
+				s.levelDefs[lv] = append(s.levelDefs[lv], n.id)
 				s.send(fmt.Sprintf("(declare-const %s %s)", smtName(n.name), n.sort))
 			}
 		default:
+			s.levelDefs[lv] = append(s.levelDefs[lv], n.id)
 			s.defsSent++
 			s.send(fmt.Sprintf("(define-fun t%d () %s %s)", n.id, n.sort, n.body()))
 		}
 	}
 }
 
-// Check decides the conjunction of the given boolean terms.
-func (s *Solver) Check(conj []*Term) Result {
-	// fold constants
+// syncPC makes the solver's assertion stack equal to pc (pc only ever grows
+// along a path; on a switch to another state the stack is popped back to the
+// common prefix).
+func (s *Solver) syncPC(pc []*Term) {
+	k := 0
+	for k < len(s.stack) && k < len(pc) && s.stack[k] == pc[k] {
+		k++
+	}
+	if n := len(s.stack) - k; n > 0 {
+		s.send(fmt.Sprintf("(pop %d)", n))
+		for lv := k + 1; lv < len(s.levelDefs); lv++ {
+			for _, id := range s.levelDefs[lv] {
+				delete(s.sent, id)
+				delete(s.declared, id)
+			}
+		}
+		s.levelDefs = s.levelDefs[:k+1]
+		s.stack = s.stack[:k]
+	}
+	for j := k; j < len(pc); j++ {
+		s.send("(push 1)")
+		s.levelDefs = append(s.levelDefs, nil)
+		s.stack = append(s.stack, pc[j])
+		s.define(pc[j])
+		s.send("(assert " + pc[j].ref() + ")")
+	}
+}
+
+// Check decides pc AND extra.  pc is kept on the solver's assertion stack.
+func (s *Solver) Check(pc []*Term, extra ...*Term) Result {
 	var lits []*Term
-	for _, t := range conj {
+	for _, t := range extra {
 		if t.IsTrue() {
 			continue
 		}
@@ -166,10 +200,15 @@ func (s *Solver) Check(conj []*Term) Result {
 		}
 		lits = append(lits, t)
 	}
-	if len(lits) == 0 {
-		return Sat
-	}
 	var kb strings.Builder
+	for _, t := range pc {
+		if t.IsFalse() {
+			return Unsat
+		}
+		kb.WriteString(strconv.Itoa(t.id))
+		kb.WriteByte(',')
+	}
+	kb.WriteByte('|')
 	for _, t := range lits {
 		kb.WriteString(strconv.Itoa(t.id))
 		kb.WriteByte(',')
@@ -179,9 +218,11 @@ func (s *Solver) Check(conj []*Term) Result {
 		return r
 	}
 	start := time.Now()
+	s.syncPC(pc)
 	r := s.checkAssuming(lits)
 	if r == Unknown {
-		r = s.checkFresh(lits)
+		all := append(append([]*Term(nil), pc...), lits...)
+		r = s.checkFresh(all)
 	}
 	s.Time += time.Since(start)
 	s.Queries++
@@ -198,6 +239,10 @@ func (s *Solver) Check(conj []*Term) Result {
 }
 
 func (s *Solver) checkAssuming(lits []*Term) Result {
+	if len(lits) == 0 {
+		s.send("(check-sat)")
+		return s.readResult()
+	}
 	var sb strings.Builder
 	sb.WriteString("(check-sat-assuming (")
 	for _, t := range lits {
